@@ -169,6 +169,25 @@ func verifCheckTable(rm RelationManager, t *verifTable, tag string) []uint32 {
 	return ids
 }
 
+// verifTableMatches reports (as one, possibly symbolic, Boolean and without
+// asserting anything) whether SELECT * of t equals the model.
+func verifTableMatches(rm RelationManager, t *verifTable) bool {
+	rows, _, err := rm.Fetch(t.name)
+	if err != nil || len(rows) != len(t.rows) {
+		return false
+	}
+	ok := true
+	for i := range rows {
+		if len(rows[i].Vals) != len(t.cols) {
+			return false
+		}
+		for j := range t.cols {
+			ok = verifAnd(ok, verifSame(t.rows[i][j], rows[i].Vals[j]))
+		}
+	}
+	return ok
+}
+
 // verifCheckDB compares every table and the catalog with the model, and checks
 // that no row id is shared between tables.
 func verifCheckDB(rm RelationManager, db *verifDB, tag string) {
@@ -215,6 +234,10 @@ type verifStmt struct {
 	run   func(rm RelationManager) error
 	apply func(db *verifDB)
 	nrows int
+	// applyN applies only the first j row operations of the statement, in the
+	// order the engine applies them (nil for CREATE TABLE); rowOps counts them.
+	applyN func(db *verifDB, j int)
+	rowOps func(db *verifDB) int
 }
 
 func verifColNames(cols []verifCol) []string {
@@ -242,6 +265,13 @@ func verifGenInsert(t *verifTable, n int, tag string, slen int, withCols bool) v
 			for _, r := range rows {
 				mt.rows = append(mt.rows, append([]interface{}(nil), r...))
 			}
+		},
+		rowOps: func(db *verifDB) int { return n },
+		applyN: func(db *verifDB, j int) {
+			mt := db.table(t.name)
+			for i := 0; i < j && i < len(rows); i++ {
+				mt.rows = append(mt.rows, append([]interface{}(nil), rows[i]...))
+			}
 		}}
 }
 
@@ -258,6 +288,28 @@ func verifGenDelete(t *verifTable, tag string) verifStmt {
 				if !verifCmpInt(op, r[0].(int64), x) {
 					keep = append(keep, r)
 				}
+			}
+			mt.rows = keep
+		},
+		rowOps: func(db *verifDB) int {
+			n := 0
+			for _, r := range db.table(t.name).rows {
+				if verifCmpInt(op, r[0].(int64), x) {
+					n++
+				}
+			}
+			return n
+		},
+		applyN: func(db *verifDB, j int) {
+			mt := db.table(t.name)
+			var keep [][]interface{}
+			done := 0
+			for _, r := range mt.rows {
+				if done < j && verifCmpInt(op, r[0].(int64), x) {
+					done++
+					continue
+				}
+				keep = append(keep, r)
 			}
 			mt.rows = keep
 		}}
@@ -280,6 +332,25 @@ func verifGenUpdate(t *verifTable, tag string, slen int) verifStmt {
 					r[1], r[2] = nb, ns
 				}
 			}
+		},
+		rowOps: func(db *verifDB) int {
+			n := 0
+			for _, r := range db.table(t.name).rows {
+				if verifCmpInt(op, r[0].(int64), x) {
+					n++
+				}
+			}
+			return n
+		},
+		applyN: func(db *verifDB, j int) {
+			mt := db.table(t.name)
+			done := 0
+			for _, r := range mt.rows {
+				if done < j && verifCmpInt(op, r[0].(int64), x) {
+					r[1], r[2] = nb, ns
+					done++
+				}
+			}
 		}}
 }
 
@@ -294,7 +365,23 @@ func verifGenCreate(name string) verifStmt {
 
 // verifFreeStmt picks one statement among insert(1), insert(2), update, delete, create.
 func verifFreeStmt(db *verifDB, tag string, slen int, kinds int) verifStmt {
-	k := verifChoice(tag+"kind", kinds)
+	return verifStmtOfKind(db, tag, slen, verifChoice(tag+"kind", kinds))
+}
+
+// verifScriptKind returns the statement kind for position i of the decimal
+// script (digits 1..5 = kinds 0..4, most significant digit first), or -1.
+func verifScriptKind(script, n, i int) int {
+	for j := n - 1; j > i; j-- {
+		script /= 10
+	}
+	d := script % 10
+	if d == 0 {
+		return -1
+	}
+	return d - 1
+}
+
+func verifStmtOfKind(db *verifDB, tag string, slen int, k int) verifStmt {
 	if k == 4 {
 		return verifGenCreate("n" + tag)
 	}
